@@ -321,8 +321,12 @@ fn run_round(idx: u64, seed: u64, nofat: bool, scratch: &Scratch) -> Result<J, S
         snaps: Mutex::new(vec![]),
         mid_snaps: AtomicU64::new(0),
     });
+    exec(&db, "BEGIN")?;
     for r in &plan.preload {
         exec(&db, &insert_sql(r))?;
+    }
+    exec(&db, "COMMIT")?;
+    for r in &plan.preload {
         sh.committed.lock().unwrap().push(json!({"tab": r.tab, "id": r.id, "stamp": r.stamp, "big_len": r.big_len, "thread": -1}));
     }
     if plan.mode != "no_hook" {
@@ -539,6 +543,7 @@ fn worker_main(a: &Args) -> i32 {
     let budget: f64 = a.rest.get(2).and_then(|s| s.parse().ok()).unwrap_or(10.0);
     let nofat = a.rest.get(3).map(|s| s == "nofat").unwrap_or(false);
     let only = a.rest.get(4).map(|s| s == "only").unwrap_or(false);
+    let stride: u64 = a.rest.get(5).and_then(|s| s.parse().ok()).unwrap_or(1).max(1);
     let t0 = Instant::now();
     // the directory must outlive this process: the supervisor judges the copies and removes them
     let scratch = Scratch::new("c38w");
@@ -552,7 +557,7 @@ fn worker_main(a: &Args) -> i32 {
             Ok(v) => emit(v),
             Err(e) => emit(json!({"case": idx, "setup_error": e})),
         }
-        idx += 1;
+        idx += stride;
         if only {
             break;
         }
@@ -868,6 +873,11 @@ fn judge(a: &Args, dir: &str, manifest: &str) -> J {
 // ------------------------------------------------------------------------------------------------ supervisor
 
 pub fn run(a: &Args) -> i32 {
+    if cfg!(miri) {
+        // Database needs mmap'ed files and the drivers need worker subprocesses: neither exists under Miri
+        println!("INCONCLUSIVE property=C38 reason=not runnable under Miri (mmap, subprocesses)");
+        return 2;
+    }
     match a.rest.first().map(|s| s.as_str()) {
         Some("worker") => return worker_main(a),
         Some("judge") => return judge_main(a),
@@ -900,90 +910,123 @@ pub fn run(a: &Args) -> i32 {
     );
     let quick = ctx.quick();
     // a round normally takes 1-3 s; (round limit, limit of the solitary re-run)
-    let (budget, stall, alone) = if quick { (50.0, 12u64, 20u64) } else { (540.0, 30u64, 60u64) };
+    let (budget, stall, alone) = if quick { (55.0, 10u64, 15u64) } else { (560.0, 30u64, 60u64) };
     let t0 = Instant::now();
-    let mut start_idx = 0u64;
-    let mut restarts = 0;
-    let mut nofat = false;
-    let mut fps: BTreeSet<u64> = BTreeSet::new();
-    let mut sig_examples: BTreeMap<String, J> = BTreeMap::new();
-    let mut plans_seen: BTreeMap<String, String> = BTreeMap::new();
-    loop {
-        let remaining = budget - t0.elapsed().as_secs_f64();
-        if remaining < 3.0 || restarts > 6 {
-            break;
-        }
-        // leave room for one watchdog expiry plus its solitary re-run at the end of the budget
-        let worker_budget = (remaining - if nofat { 3.0 } else { (stall + alone) as f64 * 0.5 }).max(2.0);
-        let args = vec![start_idx.to_string(), format!("{:.1}", worker_budget), if nofat { "nofat".to_string() } else { "fat".to_string() }];
-        let outcome = {
-            let ctx = &mut ctx;
-            let fps = &mut fps;
-            let sig_examples = &mut sig_examples;
-            let plans_seen = &mut plans_seen;
-            supervise("C38", &a.tier, a.seed, &args, Duration::from_secs(stall), &mut |v: &J| {
-                if v.get("case").is_none() {
-                    return;
-                }
-                if let Some(e) = v.get("setup_error").and_then(|e| e.as_str()) {
-                    ctx.violation("setup", "C38/setup_failed", json!({"error": e, "round": v["case"]}));
-                    return;
-                }
-                handle_round(ctx, a, v, nofat, fps, sig_examples, plans_seen);
-            })
-        };
-        match outcome {
-            Outcome::Finished => break,
-            Outcome::Stalled(idx) | Outcome::Died(_, idx) => {
-                let died = if let Outcome::Died(s, _) = &outcome { Some(s.clone()) } else { None };
-                restarts += 1;
-                let Some(idx) = idx else {
-                    ctx.inconclusive(&format!("worker failed before announcing a round: {:?}", died));
-                    break;
-                };
-                ctx.count("rounds_not_finished_in_time_or_worker_death", 1);
-                let plan = plan_round(round_seed(a.seed, idx), nofat);
-                let args = vec![idx.to_string(), "0".to_string(), if nofat { "nofat".to_string() } else { "fat".to_string() }, "only".to_string()];
-                let mut second: Option<J> = None;
-                let again = supervise("C38", &a.tier, a.seed, &args, Duration::from_secs(alone), &mut |v: &J| {
-                    if v.get("case").is_some() {
-                        second = Some(v.clone());
+    // the rounds are bound by fsync latency, not CPU: LANES supervisors, lane i runs rounds i, i+LANES, ...
+    const LANES: u64 = 3;
+    struct State {
+        ctx: Ctx,
+        fps: BTreeSet<u64>,
+        sig_examples: BTreeMap<String, J>,
+        plans_seen: BTreeMap<String, String>,
+    }
+    let st = Mutex::new(State { ctx, fps: BTreeSet::new(), sig_examples: BTreeMap::new(), plans_seen: BTreeMap::new() });
+    let nofat = AtomicBool::new(false);
+    let stuck_confirmed = AtomicBool::new(false);
+    std::thread::scope(|scope| {
+        for lane in 0..LANES {
+            let st = &st;
+            let nofat = &nofat;
+            let stuck_confirmed = &stuck_confirmed;
+            scope.spawn(move || {
+                let mut start_idx = lane;
+                let mut restarts = 0;
+                loop {
+                    let remaining = budget - t0.elapsed().as_secs_f64();
+                    if remaining < 3.0 || restarts > if quick { 6 } else { 80 } {
+                        break;
                     }
-                });
-                match (&again, &died) {
-                    (Outcome::Stalled(_), _) => {
-                        ctx.violation(
-                            "progress",
-                            "C38/progress/committers_stuck",
-                            json!({"round": idx, "round_seed": round_seed(a.seed, idx), "threads": plan.threads, "mode": plan.mode, "replay": format!("tv C38 --tier {} --seed {} worker {} 0 fat only", a.tier, a.seed, idx),
-                                "why": format!("the round did not finish within {} s, and again not within {} s when re-run alone (a round normally takes 1-3 s)", stall, alone)}),
-                        );
-                        // the many-page rounds keep deadlocking: spend the rest of the budget on the other modes
-                        if plan.fat {
-                            nofat = true;
+                    let nf = nofat.load(Ordering::SeqCst);
+                    // leave room for one watchdog expiry plus its solitary re-run at the end of the budget
+                    let worker_budget = remaining - if stuck_confirmed.load(Ordering::SeqCst) { stall.min(8) as f64 + 1.0 } else { (stall + alone) as f64 + 1.0 };
+                    if worker_budget < 2.0 {
+                        break;
+                    }
+                    let fat_arg = if nf { "nofat".to_string() } else { "fat".to_string() };
+                    let args = vec![start_idx.to_string(), format!("{:.1}", worker_budget), fat_arg.clone(), "all".to_string(), LANES.to_string()];
+                    // once the deadlock is confirmed a silent round is cut short sooner (it costs a restart, not a report)
+                    let limit = if stuck_confirmed.load(Ordering::SeqCst) { stall.min(8) } else { stall };
+                    let outcome = supervise("C38", &a.tier, a.seed, &args, Duration::from_secs(limit), &mut |v: &J| {
+                        if v.get("case").is_none() {
+                            return;
+                        }
+                        if let Some(e) = v.get("setup_error").and_then(|e| e.as_str()) {
+                            st.lock().unwrap().ctx.violation("setup", "C38/setup_failed", json!({"error": e, "round": v["case"]}));
+                            return;
+                        }
+                        // judge outside the lock, book under the lock
+                        let judged = judge_snapshots(a, v);
+                        let mut g = st.lock().unwrap();
+                        let State { ctx, fps, sig_examples, plans_seen } = &mut *g;
+                        handle_round(ctx, a, v, &judged, nf, fps, sig_examples, plans_seen);
+                    });
+                    match outcome {
+                        Outcome::Finished => break,
+                        Outcome::Stalled(idx) | Outcome::Died(_, idx) => {
+                            let died = if let Outcome::Died(s, _) = &outcome { Some(s.clone()) } else { None };
+                            restarts += 1;
+                            let Some(idx) = idx else {
+                                st.lock().unwrap().ctx.inconclusive(&format!("worker failed before announcing a round: {:?}", died));
+                                break;
+                            };
+                            st.lock().unwrap().ctx.count("rounds_not_finished_in_time_or_worker_death", 1);
+                            start_idx = idx + LANES;
+                            if stuck_confirmed.load(Ordering::SeqCst) && died.is_none() {
+                                st.lock().unwrap().ctx.count("further_silent_rounds_after_confirmed_deadlock", 1);
+                                continue;
+                            }
+                            if budget - t0.elapsed().as_secs_f64() < alone as f64 + 1.0 {
+                                st.lock().unwrap().ctx.count("silent_rounds_not_rerun_for_lack_of_time", 1);
+                                break;
+                            }
+                            let plan = plan_round(round_seed(a.seed, idx), nf);
+                            let args = vec![idx.to_string(), "0".to_string(), fat_arg.clone(), "only".to_string()];
+                            let mut second: Option<J> = None;
+                            let again = supervise("C38", &a.tier, a.seed, &args, Duration::from_secs(alone), &mut |v: &J| {
+                                if v.get("case").is_some() {
+                                    second = Some(v.clone());
+                                }
+                            });
+                            let judged = match (&again, &second) {
+                                (Outcome::Finished, Some(v)) if v.get("setup_error").is_none() => Some(judge_snapshots(a, v)),
+                                _ => None,
+                            };
+                            let mut g = st.lock().unwrap();
+                            let State { ctx, fps, sig_examples, plans_seen } = &mut *g;
+                            match (&again, &died) {
+                                (Outcome::Stalled(_), _) => {
+                                    ctx.violation(
+                                        "progress",
+                                        "C38/progress/committers_stuck",
+                                        json!({"round": idx, "round_seed": round_seed(a.seed, idx), "threads": plan.threads, "mode": plan.mode, "replay": format!("tv C38 --tier {} --seed {} worker {} 0 {} only", a.tier, a.seed, idx, fat_arg),
+                                            "why": format!("the round did not finish within {} s, and again not within {} s when re-run alone (a round normally takes 1-3 s)", limit, alone)}),
+                                    );
+                                    // the deadlock is established: spend the rest of the budget on the other assertions
+                                    stuck_confirmed.store(true, Ordering::SeqCst);
+                                    nofat.store(true, Ordering::SeqCst);
+                                }
+                                (Outcome::Died(s2, _), _) => {
+                                    ctx.violation("no_crash", "C38/process_death", json!({"round": idx, "status": s2, "first_status": died, "threads": plan.threads, "mode": plan.mode}));
+                                }
+                                (Outcome::Finished, Some(s)) => {
+                                    ctx.count("worker_deaths_not_reproduced", 1);
+                                    ctx.extra.insert("last_unreproduced_death".into(), json!({"round": idx, "status": s}));
+                                }
+                                (Outcome::Finished, None) => {
+                                    ctx.count("stalls_not_reproduced", 1);
+                                    ctx.extra.insert("last_unreproduced_stall".into(), json!({"round": idx, "threads": plan.threads, "mode": plan.mode}));
+                                }
+                            }
+                            if let (Some(j), Some(v)) = (&judged, &second) {
+                                handle_round(ctx, a, v, j, nf, fps, sig_examples, plans_seen);
+                            }
                         }
                     }
-                    (Outcome::Died(s2, _), _) => {
-                        ctx.violation("no_crash", "C38/process_death", json!({"round": idx, "status": s2, "first_status": died, "threads": plan.threads, "mode": plan.mode}));
-                    }
-                    (Outcome::Finished, Some(s)) => {
-                        ctx.count("worker_deaths_not_reproduced", 1);
-                        ctx.extra.insert("last_unreproduced_death".into(), json!({"round": idx, "status": s}));
-                    }
-                    (Outcome::Finished, None) => {
-                        ctx.count("stalls_not_reproduced", 1);
-                        ctx.extra.insert("last_unreproduced_stall".into(), json!({"round": idx, "threads": plan.threads, "mode": plan.mode}));
-                    }
                 }
-                if let (Outcome::Finished, Some(v)) = (&again, &second) {
-                    if v.get("setup_error").is_none() {
-                        handle_round(&mut ctx, a, v, nofat, &mut fps, &mut sig_examples, &mut plans_seen);
-                    }
-                }
-                start_idx = idx + 1;
-            }
+            });
         }
-    }
+    });
+    let State { mut ctx, fps, sig_examples, plans_seen } = st.into_inner().unwrap();
     cleanup_worker_scratch("c38w");
     ctx.count("distinct_hook_event_orders", fps.len() as u64);
     ctx.extra.insert("first_example_per_signature".into(), json!(sig_examples));
@@ -992,7 +1035,21 @@ pub fn run(a: &Args) -> i32 {
     ctx.finish()
 }
 
-fn handle_round(ctx: &mut Ctx, a: &Args, v: &J, nofat: bool, fps: &mut BTreeSet<u64>, sig_examples: &mut BTreeMap<String, J>, plans_seen: &mut BTreeMap<String, String>) {
+/// run the judge subprocess on every crash image of a round (and remove the images)
+fn judge_snapshots(a: &Args, v: &J) -> Vec<(J, J)> {
+    let mut out = vec![];
+    for snap in v["snapshots"].as_array().cloned().unwrap_or_default() {
+        let (Some(dir), Some(man)) = (snap["dir"].as_str(), snap["manifest"].as_str()) else { continue };
+        let j = judge(a, dir, man);
+        let _ = std::fs::remove_dir_all(dir);
+        let _ = std::fs::remove_dir_all(format!("{}.nowal", dir));
+        let _ = std::fs::remove_file(man);
+        out.push((snap.clone(), j));
+    }
+    out
+}
+
+fn handle_round(ctx: &mut Ctx, a: &Args, v: &J, judged: &[(J, J)], nofat: bool, fps: &mut BTreeSet<u64>, sig_examples: &mut BTreeMap<String, J>, plans_seen: &mut BTreeMap<String, String>) {
     let threads = v["threads"].as_u64().unwrap_or(0);
     let mode = v["mode"].as_str().unwrap_or("?").to_string();
     ctx.eval();
@@ -1051,14 +1108,9 @@ fn handle_round(ctx: &mut Ctx, a: &Args, v: &J, nofat: bool, fps: &mut BTreeSet<
             report(ctx, "commit_covered_by_log", format!("C38/commit_covered_by_log/{}/t{}", k, threads), json!({"rows": xs.len(), "examples": xs.iter().take(3).collect::<Vec<_>>(), "why": "COMMIT (autocommit INSERT) returned Ok but no frame in the log files carries the row's page image"}));
         }
     }
-    // judge the crash images
-    let snaps = v["snapshots"].as_array().cloned().unwrap_or_default();
-    for snap in &snaps {
-        let (Some(dir), Some(man)) = (snap["dir"].as_str(), snap["manifest"].as_str()) else { continue };
+    // the judged crash images
+    for (snap, j) in judged {
         let at = snap["at"].as_str().unwrap_or("?");
-        let j = judge(a, dir, man);
-        let _ = std::fs::remove_dir_all(dir);
-        let _ = std::fs::remove_file(man);
         ctx.count("crash_images_judged", 1);
         ctx.count(&format!("crash_images_{}", at), 1);
         ctx.count("wal_frames_read", j["frames"].as_u64().unwrap_or(0));
